@@ -66,6 +66,38 @@ theorem C17_pins_once (A : Answers) (o : Opts) (lines : List Str) (items : List 
     ∃ st c, readAll A o lines = .ok st ∧ collect A o st = .ok c ∧ items.filterMap pinKey = c.pinKeys :=
   expand_pins h hn ha
 
+/-- **The exact branch, read off the text alone.**  `exactBranchText` takes the lines between the first line reading
+`if (type == exact) {` and the following line reading `} else {`.  For the text the expander writes these are exactly
+the pin lines of the collected closure (and there is no such branch when the table has no setup line). -/
+theorem C17_exact_branch_text (A : Answers) (o : Opts) (lines : List Str) (items : List Item)
+    (h : expandItems A o lines = .ok items) (hn : noExactLine A o lines = true) (ha : o.addExactBlock = true) :
+    ∃ st c ind, readAll A o lines = .ok st ∧ collect A o st = .ok c ∧
+      exactBranchText (items.map renderItem) = if st.lastSetup.isSome then (pinItems ind c).map renderItem else [] :=
+  expand_exact_branch_text h hn ha
+
+/-- `C17_never_foreign` at the level of the written text: every line of the exact block of the expanded table is a line
+`setupRequired(n -j v)` / `setupOptional(n -j v)` (`pin_text`) whose `(n, v)` was set up when the table was written, or
+pinned with `-p` — under `DepsSound`, for every graph. -/
+theorem C17_never_foreign_text (A : Answers) (o : Opts) (lines : List Str) (items : List Item)
+    (hs : DepsSound A) (h : expandItems A o lines = .ok items) (hn : noExactLine A o lines = true)
+    (ha : o.addExactBlock = true) :
+    ∀ l ∈ exactBranchText (items.map renderItem),
+      ∃ ind opt n v, l = renderItem (.pin ind opt n v) ∧ Recorded A n v := by
+  obtain ⟨st, c, ind, _, hc, heq⟩ := expand_exact_branch_text h hn ha
+  intro l hl
+  rw [heq] at hl
+  split at hl
+  · simp only [List.mem_map] at hl
+    obtain ⟨x, hx, rfl⟩ := hl
+    obtain ⟨n, v, hm, rfl⟩ := mem_pinItems hx
+    refine ⟨ind, _, n, v, rfl, ?_⟩
+    rcases collect_desired hc (n, v) hm with h1 | ⟨_, n0, v0, dl, d, _, hdl, hd, hdn, hdv⟩
+    · exact h1
+    · simp only at hdn hdv
+      subst hdn; subst hdv
+      exact .inl (hs n0 v0 dl hdl d hd)
+  · simp at hl
+
 /-! ## keeps the original constraints for inexact mode -/
 
 /-- `C17_keeps_constraints`, line level (`subSetup`).  `p` is what the expander read on a setup line (product,
@@ -355,6 +387,10 @@ example : okText (expandText D1.toAnswers o1 T1)
 example : DepsSound D1.toAnswers := depsSound_of_data (by decide +kernel)
 example : (items1.filterMap pinKey).length = 3 := by decide +kernel
 example : noExactLine D1.toAnswers o1 T1 = true := by decide +kernel
+/-- the exact branch of the example's text, read off the text: three pin lines -/
+example : exactBranchText (items1.map renderItem)
+    = [str! "   setupRequired(b               -j 1)", str! "   setupRequired(c               -j 2)",
+       str! "   setupOptional(d               -j 1)"] := by decide +kernel
 
 /-- (for the non-vacuity example only) a naive exact-mode reading of a table: lines of the form `setupX(name -j version)`
 that are not inside an `} else {` branch or an `if (type != exact) {` block are applied, everything else is ignored. -/
